@@ -86,4 +86,9 @@ META = {
   text="Re-running the analysis hands out the same generated-code identifiers and does not change the memo (theorem over every key sequence); re-inserting a same-version node or an existing edge changes nothing in the graph (C17 theorems). Each run repeats GenerateGraph/Validate/GenerateIntermediate 1-3 times on one real pipeline per generated project and compares the canonical metadata with the first round and with a brand-new session, and the graph's node count across rounds.",
   note="Depends on fix 9a8836e for the comparison with a brand-new session (serial numbering used to depend on map order).",
  ),
+ "C20": dict(
+  technique="Lean 4 proof (permission strings accepted by the declared regex are parsed to a mode <= 0o777 which is the mode written; required / omitempty tag semantics; reported tag is one of the field's tags; package default) + kernel-decided facts on regenerated artefacts (struct tree + validate tags reflected from GleeceConfig; LoadGleeceConfig validates and returns before getFullMetadata; every command loads the configuration first; mode computed before WriteFile) + differential correspondence of the schema interpreter with the real command",
+  text="The tag semantics and the permission parser are Lean definitions with theorems for every string; the struct tree they are applied to is reflected from /repo on every run; the up-front order is decided on regenerated call skeletons of cmd/entrypoint.go. Each run feeds >130 configuration documents (every single-field corruption of a valid configuration, all engines/versions/permission strings/glob sets) to the real command and compares rejection reports, absence of output on rejection, and paths/modes/package/engine/version/info/servers/schemes/controllers on acceptance.",
+  note="Findings: C20-F1 (missing commonConfig accepted, open), C20-F2 (malformed-for-OpenAPI security scheme refused only after the routes file was written, open), C20-F3 (starts_with_letter looked at the first byte; fixed 3a6f899).",
+ ),
 }
